@@ -6,6 +6,7 @@ and the dictionary specification (`spec_trace`: the property itself, evaluated i
 identity hints).  `run_class` tells which guard of the theorems a run leaves first, i.e. whether a property
 failure lies inside a recorded finding class, outside the stated domain, or inside the domain of the theorem."""
 import json
+import os
 import sys
 import time
 
@@ -42,6 +43,7 @@ WEIGHTS = [("set", 3), ("nset", 1), ("get", 3), ("nget", 1), ("del", 1), ("ndel"
            ("ncontains", 1), ("iter", .5), ("len", .5), ("update", 1), ("value", 2), ("setvalue", 2), ("setlocal", 2),
            ("setns", 2)]
 UNSPEC = object()
+PFX = "c11_%d_" % os.getpid()      # case files of concurrent runs of this check must not collide
 
 
 # ------------------------------------------------------------------------------------------------ encodings (AttrEnc.v)
@@ -75,7 +77,7 @@ def cks(l):
 def calibrate(ctx):
     """which of the known forms of AttrEnc.cks is compiled in (checked on a probe, before anything is hashed)"""
     probe = [5, 0, 77, 1000, 123456789]
-    got = ctx.coq_eval("c11_cal", REQ, ["(let c := cks [%s]%%N in [N.modulo c 1000003%%N; "
+    got = ctx.coq_eval(PFX + "cal", REQ, ["(let c := cks [%s]%%N in [N.modulo c 1000003%%N; "
                                         "N.modulo (N.div c 1000003%%N) 1000003%%N])" % ";".join(map(str, probe))])[0]
     for name, f in CKS_FORMS.items():
         CKS["step"] = f
@@ -394,7 +396,7 @@ def explain(ctx, rec, t):
     with no_gc():
         r = run_seq(rec["kind"], ops=rec["ops"], full=True)
     lets = c_lets(r)
-    mf, sf = ctx.coq_eval("c11_explain", REQ, ["(%smodel_full y ops)" % lets, "(%sspec_full (abs_sys y) hops)" % lets])
+    mf, sf = ctx.coq_eval(PFX + "explain", REQ, ["(%smodel_full y ops)" % lets, "(%sspec_full (abs_sys y) hops)" % lets])
     mf, sf = split_full(mf), split_full(sf)
     return {"step": t, "op": rec["ops"][t], "init": rec["init"], "impl_answer": r["ans"][t],
             "impl_model_obs": r["m"][t], "model_obs": mf[t] if t < len(mf) else None,
@@ -406,7 +408,7 @@ def evaluate(ctx, recs, witness_fails):
              " ++ run_class y ops)" % (c_lets(r), hexlist(r["mck"]),
                                        hexlist([x for a, st in zip(r["ans"], r["sck"]) for x in (cks(a), st)]))
              for r in recs]
-    vals = ctx.coq_eval("c11_seq", REQ, terms, chunk=min(150, max(20, -(-len(terms) // 16))))
+    vals = ctx.coq_eval(PFX + "seq", REQ, terms, chunk=min(150, max(20, -(-len(terms) // 16))))
     for rec, val in zip(recs, vals):
         n = len(rec["ops"])
         case = {"kind": rec["kind"], "ops": rec["ops"], "mode": rec["mode"]}
@@ -471,7 +473,7 @@ def check_eq(ctx, pairs):
             except Exception as e:  # noqa: BLE001
                 ans = enc_exc(e)
             recs.append((x1, x2, inits, ans))
-    vals = ctx.coq_eval("c11_eq", REQ, ["eq_obs %s %s" % (c_init(i[0], "init_state"), c_init(i[1], "init_state"))
+    vals = ctx.coq_eval(PFX + "eq", REQ, ["eq_obs %s %s" % (c_init(i[0], "init_state"), c_init(i[1], "init_state"))
                                         for _, _, i, _ in recs], chunk=150)
     for (x1, x2, inits, ans), val in zip(recs, vals):
         case = {"eq": [x1, x2]}
